@@ -58,7 +58,8 @@ claim("C10", "Mixed: proof that greedy selection returns a maximiser, in range a
 claim("C11", "Mixed: proof that DecodingStrategy.step (Greedy, Evaluate; with and without store_all_logp) appends exactly one action and the log-prob the step distribution assigns to that action, that Evaluate uses the given action, and that get_log_likelihood selects / masks / sums as stated; the end-to-end evaluate round trip of the bundled policies is checked by a bounded stand-in (neural modules are outside the verifier).",
       level="other", note="step bookkeeping and get_log_likelihood proved; policy round trips bounded run-time contract check.",
       explanation="DecodingStrategy.step, get_log_likelihood are proved by tvc; ConstructivePolicy.forward with the zoo policies is covered by the bounded stand-in policy_roundtrip (labelled bounded, not counted as proved).")
-claim("C13", "Bounded stand-in only so far (labelled bounded): beam search outputs re-scored by an evaluate pass and compared with an own beam search on tiny instances, widths 2..N.",
-      level="exploration", note="Bounded run-time contract check, not a proof.")
+claim("C13", "Mixed: proof for one beam step (BeamSearch._make_beam_step, beam widths 2 and 3, any batch and problem size): every kept beam continues a beam of the same instance with a node in range, its score is the parent's score plus the step log-prob, kept beams are pairwise distinct (parent, node) pairs in score order and dominate every expansion that was not kept (torch.topk through its assumed contract); back-tracking, best-beam selection and the end-to-end re-scoring are checked by a bounded stand-in.",
+      level="other", note="_make_beam_step proved for widths 2 and 3 (the loop over beams is unrolled for concrete widths); _backtrack, _select_best_beam, feasibility and re-scoring of complete beams: bounded run-time contract check.",
+      explanation="BeamSearch._make_beam_step is proved by tvc for beam widths 2 and 3 (complete for those widths, stated bound); the rest of beam search is covered by the bounded stand-in policy_roundtrip (labelled bounded, not counted as proved).")
 claim("C14", "Bounded stand-in only so far (labelled bounded): every instance decoded alone, in reversed, sub-sampled and duplicated batches for 24 policy/environment pairs with random weights.",
       level="exploration", note="Bounded run-time contract check, not a proof.")
